@@ -195,8 +195,9 @@ func getGrpc(c *storectl.Child) (*storeapi.GrpcV1, error) {
 	if c.FM == nil {
 		return nil, errors.New("store not open")
 	}
-	ad, err := os.MkdirTemp("", "verif-c04-async-")
-	if err != nil {
+	// next to the data directory, inside the scenario's scratch directory that the parent removes
+	ad := filepath.Join(filepath.Dir(c.Dir), "async")
+	if err := os.MkdirAll(ad, 0o755); err != nil {
 		return nil, err
 	}
 	childAsync = ad
